@@ -201,4 +201,33 @@ def exactOn (adjs : List (List Nat)) : Bool :=
   | [] => false
   | first :: rest => decide (0 < countSorted (exactFold rest first).1 (exactFold rest first).2)
 
+/-! ### the scorer's per-document state (`left_slops`) across the documents of a segment
+
+`compute_phrase_match` clears `left_slops` before it folds the terms of a document
+(`Gen.PHRASE_LEFT_SLOPS_RESET_AT_START`, re-read from the source on every run); `reset = false`
+is the scorer without that reset, whose carried slops leak into the next document. -/
+
+/-- scoring disabled: (does the document match, `left_slops` left behind) -/
+def offStep (reset : Bool) (slop : Nat) (st : List Nat) (adjs : List (List Nat)) : Bool × List Nat :=
+  match adjs with
+  | [] => (false, st)
+  | first :: rest =>
+    let r := phraseFold slop rest first (if reset then [] else st)
+    (existsWithSlop r.1 r.2.2 slop, r.2.1)
+
+/-- scoring enabled (the last intersection does not update the state: `update_left = false`) -/
+def onStep (reset : Bool) (slop : Nat) (st : List Nat) (adjs : List (List Nat)) : Bool × List Nat :=
+  match adjs with
+  | [] => (false, st)
+  | first :: rest =>
+    let r := phraseFold slop rest first (if reset then [] else st)
+    ((if 2 < adjs.length then decide (0 < (carrying r.1 r.2.1 r.2.2 slop).1)
+      else decide (0 < countWithSlop r.1 r.2.2 slop)), r.2.1)
+
+/-- the scorer driven over the candidate documents of a segment, threading its state -/
+def runSteps (step : List Nat → List (List Nat) → Bool × List Nat) :
+    List Nat → List (List (List Nat)) → List Bool
+  | _, [] => []
+  | st, d :: ds => (step st d).1 :: runSteps step (step st d).2 ds
+
 end TantivyModel.PhraseSlop
